@@ -176,7 +176,8 @@ func runSCIONServer(ctx context.Context, log *slog.Logger, mtrcs *scionServerMet
 			scionLayer.RawDstAddr, scionLayer.RawSrcAddr = scionLayer.RawSrcAddr, scionLayer.RawDstAddr
 			scionLayer.Path, err = scionLayer.Path.Reverse()
 			if err != nil {
-				panic(err)
+				log.LogAttrs(ctx, slog.LevelInfo, "failed to reverse path", slog.Any("error", err))
+				continue
 			}
 			scionLayer.NextHdr = slayers.L4SCMP
 
@@ -199,7 +200,8 @@ func runSCIONServer(ctx context.Context, log *slog.Logger, mtrcs *scionServerMet
 
 			err = scionLayer.SerializeTo(buffer, options)
 			if err != nil {
-				panic(err)
+				log.LogAttrs(ctx, slog.LevelInfo, "failed to encode packet", slog.Any("error", err))
+				continue
 			}
 			buffer.PushLayer(scionLayer.LayerType())
 
@@ -230,11 +232,13 @@ func runSCIONServer(ctx context.Context, log *slog.Logger, mtrcs *scionServerMet
 
 		srcAddr, ok := netip.AddrFromSlice(scionLayer.RawSrcAddr)
 		if !ok {
-			panic("unexpected IP address byte slice")
+			log.LogAttrs(ctx, slog.LevelInfo, "failed to decode packet", slog.String("cause", "unexpected source address type"))
+			continue
 		}
 		dstAddr, ok := netip.AddrFromSlice(scionLayer.RawDstAddr)
 		if !ok {
-			panic("unexpected IP address byte slice")
+			log.LogAttrs(ctx, slog.LevelInfo, "failed to decode packet", slog.String("cause", "unexpected destination address type"))
+			continue
 		}
 
 		if int(udpLayer.DstPort) != localHostPort {
@@ -285,14 +289,16 @@ func runSCIONServer(ctx context.Context, log *slog.Logger, mtrcs *scionServerMet
 			if scionLayer.NextHdr == slayers.End2EndClass {
 				err = e2eLayer.SerializeTo(buffer, options)
 				if err != nil {
-					panic(err)
+					log.LogAttrs(ctx, slog.LevelInfo, "failed to encode packet", slog.Any("error", err))
+					continue
 				}
 				buffer.PushLayer(e2eLayer.LayerType())
 			}
 
 			err = scionLayer.SerializeTo(buffer, options)
 			if err != nil {
-				panic(err)
+				log.LogAttrs(ctx, slog.LevelInfo, "failed to encode packet", slog.Any("error", err))
+				continue
 			}
 			buffer.PushLayer(scionLayer.LayerType())
 
@@ -332,6 +338,11 @@ func runSCIONServer(ctx context.Context, log *slog.Logger, mtrcs *scionServerMet
 			if fetcher != nil && len(decoded) >= 3 &&
 				decoded[len(decoded)-2] == slayers.LayerTypeEndToEndExtn {
 				authOpt, err = e2eLayer.FindOption(slayers.OptTypeAuthenticator)
+				if err == nil && len(authOpt.OptData) != scion.PacketAuthOptDataLen {
+					log.LogAttrs(ctx, slog.LevelInfo, "failed to authenticate packet",
+						slog.String("cause", "unexpected authenticator option data"))
+					continue
+				}
 				if err == nil {
 					spi, algo := scion.PacketAuthOptMetadata(authOpt)
 					if spi == scion.PacketAuthSPIClient && algo == scion.PacketAuthAlgorithm {
@@ -365,7 +376,8 @@ func runSCIONServer(ctx context.Context, log *slog.Logger, mtrcs *scionServerMet
 								authMAC,
 							)
 							if err != nil {
-								panic(err)
+								log.LogAttrs(ctx, slog.LevelInfo, "failed to authenticate packet", slog.Any("error", err))
+								continue
 							}
 							authenticated = subtle.ConstantTimeCompare(scion.PacketAuthOptMAC(authOpt), authMAC) != 0
 							if !authenticated {
@@ -455,7 +467,9 @@ func runSCIONServer(ctx context.Context, log *slog.Logger, mtrcs *scionServerMet
 			scionLayer.RawDstAddr, scionLayer.RawSrcAddr = scionLayer.RawSrcAddr, scionLayer.RawDstAddr
 			scionLayer.Path, err = scionLayer.Path.Reverse()
 			if err != nil {
-				panic(err)
+				log.LogAttrs(ctx, slog.LevelInfo, "failed to reverse path", slog.Any("error", err))
+				updateTXTimestamp(clientID, rxt, &txt0) // no reply: drop the exchange
+				continue
 			}
 			scionLayer.NextHdr = slayers.L4UDP
 
@@ -536,7 +550,9 @@ func runSCIONServer(ctx context.Context, log *slog.Logger, mtrcs *scionServerMet
 
 			err = scionLayer.SerializeTo(buffer, options)
 			if err != nil {
-				panic(err)
+				log.LogAttrs(ctx, slog.LevelInfo, "failed to encode packet", slog.Any("error", err))
+				updateTXTimestamp(clientID, rxt, &txt0) // no reply: drop the exchange
+				continue
 			}
 			buffer.PushLayer(scionLayer.LayerType())
 
